@@ -28,7 +28,7 @@ ASSUMPTIONS = [
     "convolutions inside programs are shape-preserving (odd square filter, TORUS/SAME-by-default padding, unit stride) so that results stay combinable",
 ]
 CONFIG = {
-    "quick": {"examples": 320, "shards": 16, "shrink_s": 40, "time_budget_s": 240},
+    "quick": {"examples": 960, "shards": 16, "shrink_s": 40, "time_budget_s": 240},
     "thorough": {"examples": 12000, "shards": 16, "shrink_s": 200, "time_budget_s": 1500},
 }
 LIMIT = 2**22
